@@ -83,14 +83,17 @@ CLAIMED["C01"] = dict(
     design="DESIGN.md section 6, C01",
 )
 CLAIMED["C13"] = dict(
-    text="Lean 4 theorems: for every matching, option set and document size no action of the emitted script names an "
-    "ignored attribute (C13_never_named), and per node pair the attribute actions avoid ignored names, are applicable in "
-    "order and produce the stored attribute list (C13_attr_actions_avoid_ignored). PARTIAL: round trip up to ignored "
-    "attributes and emptiness for documents equal up to ignored attributes are decided per run by the oracles of the "
-    "differ cluster (stream with random ignored_attrs subsets), not by a theorem.",
-    note="Trusted: Lean kernel and standard axioms; model of update_node_attr / node_attribs validated by U5; fixed "
+    text="Lean 4 theorems, all three clauses, for documents of any size: (1) documents that differ only in ignored attributes get "
+    "the empty script in all three match modes (C13_ignored_only_differences_empty_script; the matcher pairs counterparts, "
+    "then no generator step emits anything); (2) no action of any script names an ignored attribute (C13_never_named, every "
+    "matching); (3) the patched left document equals the right one up to the ignored attributes "
+    "(C13_patched_equals_right_up_to_ignored, every good matching). Clause (1) assumes of the similarity oracle what the real "
+    "node_ratio computes for nodes equal up to ignored attributes (1.0 once children are matched; for fast_match, row/column "
+    "dominance of the counterpart) - checked against the real node_ratio on every such pair of every run (unit U2eq).",
+    note="Trusted: Lean kernel and standard axioms; model of update_node_attr / node_attribs / match validated by U4/U5/U2eq; fixed "
     "defect 715fccf (ignored unique attribute) recorded in known_findings.json.",
-    technique="Lean 4 proof (phase invariants of update_node_attr, fold over the script generator) + correspondence + oracles",
+    technique="Lean 4 proof (matcher invariant on equal documents, no-op analysis of the generator, phase invariants of "
+    "update_node_attr, Chawathe invariant) + correspondence + oracles",
     design="DESIGN.md section 6, C13",
 )
 
@@ -188,15 +191,20 @@ CLAIMED["C06"] = dict(
 )
 
 CLAIMED["C03"] = dict(
-    text="Lean 4 theorems: an empty script leaves the differ's working copy identical to the left document (for every matching, "
-    "any size), so together with working-copy = right document an empty script forces equal documents; the 'diff' formatter "
-    "returns the empty string exactly for the empty script. PARTIAL: 'equal documents give [] under every option combination' is "
-    "not proved (it depends on the similarity oracle pairing counterparts); it is decided on every run by the oracle on the "
-    "'equal' stream (each document against its copy incl. many identical siblings, repeated subtrees, duplicate unique-attribute "
-    "values, all three match modes) and the converse on all other streams, with the model tied to the code by U4/U5.",
-    note="Trusted: Lean kernel and standard axioms; models validated by U4/U5; XML-formatter output without markup for equal "
+    text="Lean 4 theorems for documents of any size and every option set with 0 < F <= 1: the script is empty exactly when the "
+    "documents are equal (C03_empty_script_iff_equal). Equal documents (identical siblings, repeated subtrees, duplicate "
+    "unique-attribute values included) get the empty script in the default mode, with best_match and with fast_match "
+    "(C03_equal_documents_empty_script: match() pairs every node with its counterpart - induction over the post-order lists, "
+    "the LCS helper's maximality for fast_match - then no step of the generator emits anything and the working copy is "
+    "untouched); different documents never get an empty script (corollary of the script-generation invariant); the 'diff' "
+    "formatter returns the empty string exactly for the empty script. Assumed about the similarity oracle (float arithmetic "
+    "is not modelled) and checked against the real node_ratio on every equal pair of every run (unit U2eq): counterparts "
+    "score exactly 1.0 once their children are matched; for fast_match, a node reaching F against anything on empty maps "
+    "reaches F against its counterpart. The 'xml' formatter half is decided per run by the oracle.",
+    note="Trusted: Lean kernel and standard axioms; models validated by U4/U5/U2eq; XML-formatter output without markup for equal "
     "documents is part of the C08-C10 machinery.",
-    technique="Lean 4 proof (replay corollary) + model/code correspondence + emptiness oracle on equal/different document streams",
+    technique="Lean 4 proof (matcher invariant on equal documents, LCS maximality, no-op analysis of the generator, Chawathe "
+    "invariant for the converse) + model/code correspondence + emptiness oracle on equal/different document streams",
     design="DESIGN.md section 6, C03",
 )
 CLAIMED["C17"] = dict(
